@@ -42,18 +42,15 @@ class Machine(Interp):
                 r = C(x[1] << y[1]) if op == 'shl' else C(x[1] >> y[1])
             else:
                 r = (op, x, y)
-                if is_const(y) and y[1] % 8 == 0 and op == 'shl' and (x[0] in ('cat', 'in', 'byte', 'sxb') or True):
+                if is_const(y) and y[1] % 8 == 0 and dx.lo >= 0:
                     # keep byte lanes visible
                     n = ty.size
-                    src = to_bytes(x, n)
-                    if not any(b[0] == 'byte' and b[1] == x for b in src):
-                        s = y[1] // 8
+                    src = self.st_bytes(st, x, n)
+                    s = y[1] // 8
+                    if op == 'shl':
                         r = mk_cat(tuple([ZERO] * s) + tuple(src))
-                elif is_const(y) and y[1] % 8 == 0 and op == 'shr' and st.dom(x).lo >= 0:
-                    n = ty.size
-                    src = to_bytes(x, n)
-                    if not any(b[0] == 'byte' and b[1] == x for b in src):
-                        r = mk_cat(src[y[1] // 8:] or (ZERO,))
+                    else:
+                        r = mk_cat(tuple(src[s:]) or (ZERO,))
             return self.finish_int(st, r, ty, node, op)
         if op in ('div', 'mod'):
             dy = st.dom(y)
@@ -76,16 +73,9 @@ class Machine(Interp):
                 dx, dy = st.dom(x), st.dom(y)
                 if dx.lo >= 0 and dy.lo >= 0:
                     n = ty.size
-                    bs = []
-                    generic = False
-                    for k in range(n):
-                        bx, by = mk_byte(x, k), mk_byte(y, k)
-                        if (bx[0] == 'byte' and bx[1] == x) or (by[0] == 'byte' and by[1] == y):
-                            generic = True
-                            break
-                        from .terms import bitop_byte
-                        bs.append(bitop_byte(op, bx, by, None, k))
-                    r = (op, x, y) if generic else mk_cat(bs)
+                    from .terms import bitop_byte
+                    bxs, bys = self.st_bytes(st, x, n), self.st_bytes(st, y, n)
+                    r = mk_cat([bitop_byte(op, bx, by, None, k) for k, (bx, by) in enumerate(zip(bxs, bys))])
                 else:
                     r = (op, x, y)
             return self.finish_int(st, r, ty, node, op)
@@ -96,10 +86,23 @@ class Machine(Interp):
             r = self.simp((op, x, y))
         return self.finish_int(st, r, ty, node, op)
 
+    def st_bytes(self, st, x, n):
+        """n little-endian byte terms of non-negative x; bytes above x's range are zero."""
+        d = st.dom(x)
+        out = []
+        for k in range(n):
+            if d.hi != INF and d.hi < (1 << (8 * k)):
+                out.append(ZERO)
+            else:
+                out.append(mk_byte(x, k))
+        return tuple(out)
+
     def finish_int(self, st, r, ty, node, op):
         lo, hi = ty.minmax()
         d = st.dom(r)
         if (d.lo >= lo or st.prove_le(C(lo), r)) and (d.hi <= hi or st.prove_le(r, C(hi))):
+            if d.lo < lo or d.hi > hi:
+                st.env[st.canon(r)] = d.meet(Dom(lo, hi))
             if ty.signed:
                 self.oblige(True, 'signed-overflow', node, '')
             return r
@@ -363,8 +366,11 @@ class Machine(Interp):
 
     def inline(self, st, ix, fn, args, node, rty):
         name = fn['name']
-        sig = self.call_sig(st, name, args)
-        if sig in st.stack:
+        if name not in self.recursive_fns:
+            sig = (name,)
+        else:
+            sig = self.call_sig(st, name, args)
+        if name in self.recursive_fns and sig in st.stack:
             # recursive re-entry with the same abstract arguments: least fix-point of a
             # tail call = the non-recursive exits; this path contributes nothing new
             st.tags['recursion_cut'] = st.tags.get('recursion_cut', 0) + 1
